@@ -67,6 +67,11 @@ C17)
   (cd $REPO && go build -o "$W/goose" ./cmd/goose) || { echo "harness error: goose does not build" >&2; exit 3; }
   EXTRA_ARGS="-bin $W/goose"
   ;;
+C01|C02)
+  build "$W/bin" ./cmd/c01 || exit 3
+  (cd $REPO && go build -o "$W/goose" ./cmd/goose) || { echo "harness error: goose does not build" >&2; exit 3; }
+  EXTRA_ARGS="-prop $ID -bin $W/goose"
+  ;;
 *) echo "unknown property $ID" >&2; exit 3;;
 esac
 
